@@ -596,3 +596,12 @@ func edgeGuards(c *Ctx, pred, succ *ssa.BasicBlock) []string {
 	}
 	return out
 }
+
+func init() {
+	p := registry["C13"]
+	p.Rules = append(p.Rules, ruleDef{"C13.R9", func(r *R) {
+		forkSiblingRule(r, "C13.R9", "server.go", "http2.go", "errors.go", "frame.go")
+		forkTablesRule(r, "C13.R9")
+	}})
+	wantRefs("C13")
+}
